@@ -164,6 +164,9 @@ def shards(tier):
         sh.append({"kind": "dec_rand", "n": 30000 if th else 2500})
     sh.append({"kind": "peek", "n": 20000 if th else 1500})
     sh.append({"kind": "bomb", "n": 200 if th else 40})
+    if th:
+        for i in range(4):
+            sh.append({"kind": "atheris", "runs": 400000, "offset": i, "empty": i == 3})
     return sh
 
 
@@ -325,11 +328,31 @@ def run_shard(ctx, shard):
         hyp_run(ctx, _peek_strategy(), _peek_body(ctx), shard["n"])
     elif k == "bomb":
         _bomb(ctx, shard["n"])
+    elif k == "atheris":
+        from vlib.fuzz import run_campaign
+        run_campaign(ctx, "checks.c03", shard["runs"], 4096, FUZZ_CORPUS, "zerocode", shard["offset"], shard["empty"])
     else:
         raise ValueError(k)
 
 
+FUZZ_CORPUS = [b"", b"\x01", b"\x00\x01", b"\x00\x00\x05", b"\x01\x02\x00\xff\x03", b"\x00", b"\x00\x00", b"abc\x00\x03def\x00", bytes(255), bytes(256), bytes(300) + b"\x07",
+               b"\x00\x00\x2c", b"\x00\xff\x00\x01", b"\x00\x00\x00\x01"]
+
+
+def fuzz_one(data: bytes):
+    """atheris target: both directions of the code for one byte string, judged by the same oracles"""
+    res = enc_laws(data) + dec_laws(data)
+    cl = []
+    if b"\x00\x00" in data:
+        cl.append("wrap-or-run")
+    if expand_ref_len(data) > CAP:
+        cl.append("overcap")
+    return res, b"\x00" in data, cl
+
+
 def replay(ctx, case):
+    if isinstance(case, dict) and "fuzz" in case:
+        return fuzz_one(bytes(case["data"]))[0]
     if isinstance(case, (bytes, bytearray)):
         return enc_laws(bytes(case)) + dec_laws(bytes(case))
     if isinstance(case, (tuple, list)) and len(case) == 5:
@@ -344,5 +367,5 @@ MANIFEST = {
     "note": "Trusts the in-/verif reference decoder (30 lines, from the format description). Cap clause checked as "
             "raise-vs-return at the boundary (+256 slack) and a tracemalloc peak bound on zip bombs, not as a proof "
             "about the allocator.",
-    "technique": "exhaustive enumeration + Hypothesis generation, differential vs reference decoder, round-trip and canonical-form predicate",
+    "technique": "exhaustive enumeration + Hypothesis generation, differential vs reference decoder, round-trip and canonical-form predicate; thorough tier adds coverage-guided atheris campaigns with the same oracles inside the target",
 }
